@@ -116,7 +116,7 @@ Example thread_total_example :
               IMsg (PDict kv) None None [None; Some RuntimeError];   (* the send raises: contained *)
               IRaise ValueError;
               IMsg (PDict kv) None None []] in
-  no_cancel (PStr (s2l "A")) false s its = true /\
+  forallb ordinary_item its = true /\ no_cancel (PStr (s2l "A")) false s its = true /\
   thread (PStr (s2l "A")) false s its =
   (s, [EListen; ELogExc TypeError; EListen;
        EOp OEmit [PStr (s2l "e"); PInt 1%Z; PStr (s2l "/"); PNone; PNone; PNone]; ELogExc RuntimeError;
@@ -124,7 +124,7 @@ Example thread_total_example :
        EOp OEmit [PStr (s2l "e"); PInt 1%Z; PStr (s2l "/"); PNone; PNone; PNone];
        ESend (PStr (s2l "e1")) (PTuple [PStr (s2l "/"); PList [PStr (s2l "e"); PInt 1%Z]; PNone]);
        ELogErr], Exited).
-Proof. vm_compute. split; reflexivity. Qed.
+Proof. vm_compute. repeat split. Qed.
 
 (* ================================================================== *)
 (* 2. Ineffective messages                                             *)
